@@ -23,7 +23,9 @@ Definition t08_pdu_exceeds_mtu := 4%nat.
 
 Definition mtu_error : list N := [1; 2; 0; 0; 4].
 
-Definition check08 (c : cfg) (m : obs) (o : srv_op) (r : srv_out) : option nat :=
+(* the clauses without the exact lengths: fault, pdu_exceeds_mtu, the answers to Exchange MTU Requests
+   (C08_monitor_core_accepts_model: proved for every trace of the model) *)
+Definition check08_core (c : cfg) (m : obs) (o : srv_op) (r : srv_out) : option nat :=
   match o, r with
   | _, OFault => if fault_relevant o then Some t08_fault else None
   | OpIn cid pdu n, OBytes resp =>
@@ -40,28 +42,50 @@ Definition check08 (c : cfg) (m : obs) (o : srv_op) (r : srv_out) : option nat :
                      else (if bytes_eqb resp mtu_error then None else Some t08_mtu_rejected_changed)
                  | _ => if bytes_eqb resp mtu_error then None else Some t08_mtu_rejected_changed
                  end
-             | [10; lo; hi] =>
-                 match by_value_handle (ob_tab m) (lo + 256 * hi), resp with
-                 | Some g, 11 :: d =>
-                     if len d =? N.min (ce_size (cent_at (ob_tab m) g)) (eff_size c k n - 1) then None else Some t08_mtu_value
-                 | _, _ => None
-                 end
              | _ => None
              end
   | OpOut cid n, OBytes pdu =>
-      let k := oc_at m cid in
-      if eff_size c k n <? len pdu then Some t08_pdu_exceeds_mtu
-      else match pdu with
-           | _ :: lo :: hi :: v =>
-               match by_value_handle (ob_tab m) (lo + 256 * hi) with
-               | Some g => if len v =? N.min (ce_size (cent_at (ob_tab m) g)) (eff_size c k n - 3) then None else Some t08_mtu_value
-               | None => None
-               end
-           | _ => None
-           end
+      if eff_size c (oc_at m cid) n <? len pdu then Some t08_pdu_exceeds_mtu else None
   | _, _ => None
+  end.
+
+(* the MTU in use IS the negotiated one: exact lengths of Read Responses and notifications (tied only) *)
+Definition check08_exact (c : cfg) (m : obs) (o : srv_op) (r : srv_out) : option nat :=
+  match o, r with
+  | OpIn cid pdu n, OBytes resp =>
+      if (len pdu =? 0) || (n <? default_att_mtu) then None
+      else
+        let k := oc_at m cid in
+        match pdu with
+        | [10; lo; hi] =>
+            match by_value_handle (ob_tab m) (lo + 256 * hi), resp with
+            | Some g, 11 :: d =>
+                if len d =? N.min (ce_size (cent_at (ob_tab m) g)) (eff_size c k n - 1) then None else Some t08_mtu_value
+            | _, _ => None
+            end
+        | _ => None
+        end
+  | OpOut cid n, OBytes pdu =>
+      let k := oc_at m cid in
+      match pdu with
+      | _ :: lo :: hi :: v =>
+          match by_value_handle (ob_tab m) (lo + 256 * hi) with
+          | Some g => if len v =? N.min (ce_size (cent_at (ob_tab m) g)) (eff_size c k n - 3) then None else Some t08_mtu_value
+          | None => None
+          end
+      | _ => None
+      end
+  | _, _ => None
+  end.
+
+Definition check08 (c : cfg) (m : obs) (o : srv_op) (r : srv_out) : option nat :=
+  match check08_core c m o r with
+  | Some t => Some t
+  | None => check08_exact c m o r
   end.
 
 Definition mstep08 := mstep_of check08.
 Definition monitor08 (c : cfg) (tr : list (srv_op * srv_out)) : option (nat * nat) :=
   monitor_from_of check08 c (obs_init c) O tr.
+Definition monitor08_core (c : cfg) (tr : list (srv_op * srv_out)) : option (nat * nat) :=
+  monitor_from_of check08_core c (obs_init c) O tr.
